@@ -819,7 +819,7 @@ def classes_of(r):
         # of the parser on a valid text (its division/regex heuristic, C05 classes), not a printer defect
         from parts import kfclass
         from checks.C03 import tokenize_rough
-        cls |= set(kfclass.classes(tokenize_rough(r.out))) & {'KF-05a', 'KF-05b', 'KF-05c'}
+        cls |= set(kfclass.classes(tokenize_rough(r.out))) & {'KF-05b', 'KF-05c'}
     return cls
 
 
